@@ -55,6 +55,28 @@ def run(ctx):
     rule_b(ctx, cr)
     rule_c(ctx, cr)
     rule_e(ctx, cr)
+    # RETURN leaves no residue above the caller's frames (shared with C01.h)
+    ctx.rule("C18.f", "RETURN carries at most the value that was on top when it started: unwinding "
+             "an unfinished FOR frame must not push one of its entries back above the caller's "
+             "frames (see C01.h)")
+    from rules import c01
+
+    class _Proxy:
+        def __init__(self, c):
+            self.c = c
+
+        def __getattr__(self, n):
+            return getattr(self.c, n)
+
+        def check(self, cond, rule, key, *a, **k):
+            return self.c.check(cond, "C18.f", key, *a, **k)
+
+        def ok(self, rule, key, *a, **k):
+            return self.c.ok("C18.f", key, *a, **k)
+
+        def bad(self, rule, key, *a, **k):
+            return self.c.bad("C18.f", key, *a, **k)
+    c01.rule_h(_Proxy(ctx), cr)
 
 
 def rule_a(ctx, cr):
